@@ -117,6 +117,7 @@ CLIENT = "props/client"
 
 prop("C08", [
     S(CLIENT, "^TestC08Regress$", kind="plain"),
+    S(CLIENT, "^TestC08Errnos$", kind="plain"),
     S(CLIENT, "^TestC08$", q=3000, t=20000, shards=16),
 ], ["the simulated kernel never hands out request sequence 0 (the kernel uses 0 for unsolicited events)",
     "'identifies the errno' = errors.Is(err, errno), plus AddRule's documented 'rule exists' text for EEXIST",
